@@ -13,5 +13,5 @@ for id in "$@"; do
   [ "$code" = 2 ] && echo "$out" | grep -m2 HARNESS-ERROR | cut -c1-300
 done
 git -C /repo worktree remove --force "$wt"
-find /verif/replays -name '*.json' ! -name 'regress-*' -newer "$patch" -delete 2>/dev/null
+[ -n "$KEEP" ] || find /verif/replays -name "*.json" ! -name "regress-*" -newer "$patch" -delete 2>/dev/null
 exit 0
